@@ -189,6 +189,9 @@ class ScrapliFileHandler(FileHandler_):
             )
 
         self._record_buf.msg = f"read : {self._record_msg_buf!r}"
+        # the payload is already formatted into the buffer, the args of the first (lazily formatted)
+        # read record must not be applied to the new message
+        self._record_buf.args = ()
         super().emit(record=self._record_buf)
         self._record_buf = None
         self._record_msg_buf = b""
@@ -207,7 +210,15 @@ class ScrapliFileHandler(FileHandler_):
             N/A
 
         """
-        if not record.msg.startswith(self._read_msg_prefix):
+        try:
+            # records are formatted lazily (i.e. `logger.debug("read: %r", buf)`), so always look at
+            # the formatted message, never at the `msg` template
+            message = record.getMessage()
+        except Exception:  # pylint: disable=W0703
+            self.handleError(record=record)
+            return
+
+        if not message.startswith(self._read_msg_prefix):
             # everytime we get a message *not* starting with "read: " we check to see if there is
             # any buffered message ready to send, if so send it. otherwise, treat the message
             # normally by super'ing to the "normal" handler
@@ -217,17 +228,19 @@ class ScrapliFileHandler(FileHandler_):
             super().emit(record=record)
             return
 
+        # get the payload of the message after "read: " and re-convert it to bytes
+        payload = message[self._read_msg_prefix_len :].encode()
+
         if self._record_buf is None:
             # no message in the buffer, set the current record to the _record_buf
             self._record_buf = record
-            # get the payload of the message after "read: " and re-convert it to bytes
-            self._record_msg_buf = record.msg[self._read_msg_prefix_len :].encode()
+            self._record_msg_buf = payload
             return
 
         # if we get here we know we are getting subsequent read messages we want to buffer -- the
         # log record data will all be the same, its just the payload that will be new, so add that
         # current payload to the _record_msg_buf buffer
-        self._record_msg_buf += record.msg[self._read_msg_prefix_len :].encode()
+        self._record_msg_buf += payload
 
 
 def get_instance_logger(
